@@ -632,6 +632,15 @@ def run_case(c, stats):
         core.LOG.count("C17.order_independence")
         if len(verdicts) > 1:
             core.report(PROP, "order_independence", "verdict-depends-on-order-or-optim", None, tags_rules(rules))
+    for optim in (0, 1, 8, 7):
+        # clean-up asked FIRST of a fresh grammar (nothing has run the marking yet), for the orderings that do not
+        # touch the consumption table themselves
+        random.seed(c["seed"])
+        ok, g = call(tolib, list(rules), optim)
+        if ok:
+            ok, u = call(g.remove_useless_rules)
+            if ok:
+                call(u.is_empty)
     for j, perm in enumerate([tuple(rules)] + [tuple(rng.sample(rules, len(rules))) for _ in range(3)]):
         ok, g = call(tolib, list(perm), 7 if j == 0 else rng.randrange(9))
         if ok:
